@@ -57,6 +57,9 @@ def cases(rng, tier):
         elif r < 0.3 and len(b) >= 9:
             b = b[:5] + struct.pack(">I", lid) + b[9:]   # sender id = local id
             tag = "id-collision"
+        elif r < 0.6:
+            b, f = gen.r_open_single_fault(rng, ras, lid)
+            tag = "single-fault." + f
         cs.append(Case(4, [lid, las, ras], [b], tag))
     return cs
 
